@@ -148,18 +148,6 @@ theorem exprBound_sound {fields : List (String × FTy)} {r : Rec} (h : WT fields
     simp only [Expr.eval]
     exact Nat.le_trans (Nat.mod_le _ _) this
 
-theorem readNum_lt (r : Reader) (k : Nat) (hb : ∀ x ∈ r.rest, x < 256) : (r.readNum k).1 < 256 ^ k := by
-  have hp : 0 < 256 ^ k := Nat.pow_pos (by omega)
-  unfold Reader.readNum
-  split
-  · exact hp
-  · split
-    · rename_i hk
-      have := fromBe_lt (r.rest.take k) (fun x hx => hb x ((List.take_sublist _ _).subset hx))
-      rw [List.length_take, Nat.min_eq_left hk] at this
-      exact this
-    · split <;> exact hp
-
 /-! ### one statement, then a statement list -/
 
 /-- the state a decoder is in: integer fields within their width, input octets are octets -/
